@@ -4,6 +4,8 @@ from ..r_protocol import run_protocol
 from ..r_rules import rule_tables_applicable
 from ..r_rings import rule_heavy_atoms
 
+from ..r_domains import rule_domains
+
 LEVEL = 'other'
 NORMALISERS = {'Standardize.canonicalize', 'Standardize.standardize', 'Standardize.standardize_charges', 'Resonance.fix_resonance',
                'AcidBase.neutralize', 'Standardize.implicify_hydrogens', 'Standardize.explicify_hydrogens', 'Standardize.remove_coordinate_bonds',
@@ -17,4 +19,5 @@ def run(ck, repo):
     P = run_protocol(ck, repo, 'C14.D1-protocol', only_entries=NORMALISERS)
     ck.floor('C14.D1-protocol', 30)
     rule_tables_applicable(ck, repo, 'C14.D2-rule-tables')
+    rule_domains(ck, repo, 'C14.D2-index-domains', only=['__standardize', '__fix_rings'])
     rule_heavy_atoms(ck, repo, 'C14.D3-heavy-atoms', P)
